@@ -5,7 +5,7 @@ import io
 from remerkleable.core import BackedView, FixedByteLengthViewHelper, \
     pack_bits_to_chunks, View, ObjType, ObjParseException
 from remerkleable.tree import Node, PairNode, zero_node, Gindex, to_gindex, Link, RootNode, NavigationError,\
-    Root, subtree_fill_to_contents, subtree_fill_to_length, get_depth
+    Root, subtree_fill_to_contents, subtree_fill_to_length, get_depth, RIGHT_GINDEX
 from remerkleable.basic import boolean, uint256
 from remerkleable.readonly_iters import BitfieldIter
 
@@ -335,6 +335,8 @@ class Bitlist(BitsView):
 
     @classmethod
     def key_to_static_gindex(cls, key: Any) -> Gindex:
+        if key == '__len__':
+            return RIGHT_GINDEX
         depth = cls.tree_depth()
         bit_limit = cls.limit()
         if key < 0 or key >= bit_limit:
